@@ -151,6 +151,15 @@ impl StreamModel {
         })
     }
 
+    /// The search is abandoned from another handle before the first item whose gap is `late_gap_ms` or more.
+    pub fn abandon_from_elsewhere(&mut self, late_gap_ms: u64) {
+        if let Some(p) = self.items.iter().position(|it| it.gap_ms >= late_gap_ms) {
+            self.items.truncate(p);
+        }
+        self.done = None;
+        self.abandoned = true;
+    }
+
     /// Is there a planned emission the next `next()` can consume? (otherwise the call blocks)
     pub fn would_block(&self) -> bool {
         self.state == SState::Active && self.cursor >= self.items.len() && self.done.is_none() && !self.abandoned
